@@ -96,6 +96,13 @@ pub struct World {
     pub trust_anchor_text: String,
     pub inception: u32,
     pub expiration: u32,
+    /// The RRSIG over `zone.tld. DS` (in the tld zone) expires earlier than
+    /// every other signature: the chain to anything in zone.tld ends then.
+    pub ds_expiration: u32,
+    /// For every RRset of the tld and zone.tld zones a cryptographically
+    /// correct RRSIG made by `evil.tld.` - a securely delegated sibling zone
+    /// that is no ancestor of those names - with itself as signer name.
+    pub foreign_sigs: BTreeMap<(String, Rtype), SRec>,
 }
 
 fn make_key(owner: &str, _seed_byte: u8) -> (SigningKey<Bytes, KeyPair>, Dnskey<Vec<u8>>) {
@@ -239,9 +246,11 @@ fn index(zd: &mut ZoneData, recs: impl Iterator<Item = SRec>) {
 pub fn build_world(variant: u32, epoch: u32) -> World {
     let inception = epoch - 86_400;
     let expiration = epoch + 30 * 86_400;
+    let ds_expiration = epoch + 12 * 86_400;
     let root_key = make_key(".", 1);
     let tld_key = make_key("tld.", 2);
     let zone_key = make_key("zone.tld.", 3);
+    let evil_key = make_key("evil.tld.", 4);
     let leaf_denial = match variant % 4 {
         0 => Denial::Nsec,
         1 => Denial::Nsec3 { iterations: 0, salt: false, opt_out: false },
@@ -258,8 +267,9 @@ pub fn build_world(variant: u32, epoch: u32) -> World {
     // RFC 4035 section 5.2 has a validator ignore those and use the rest.
     let extra_ds = if variant % 2 == 1 { format!("zone.tld. 3600 IN DS 4711 15 2 {}\n", "AB".repeat(32)) } else { String::new() };
     let tld_text = format!(
-        "tld. 3600 IN SOA ns.tld. admin.tld. 1 7200 3600 86400 300\ntld. 3600 IN NS ns.tld.\nns.tld. 3600 IN A 198.51.100.2\nzone.tld. 3600 IN NS ns.zone.tld.\n{extra_ds}zone.tld. 3600 IN DS {}\nns.zone.tld. 3600 IN A 198.51.100.3\nunsigned.tld. 3600 IN NS ns.unsigned.tld.\nns.unsigned.tld. 3600 IN A 198.51.100.4\nplain.tld. 3600 IN TXT \"in the tld zone\"\nalso.unsigned2.tld. 3600 IN TXT \"below an ent\"\n",
-        ds_text("zone.tld.", &zone_key.1)
+        "tld. 3600 IN SOA ns.tld. admin.tld. 1 7200 3600 86400 300\ntld. 3600 IN NS ns.tld.\nns.tld. 3600 IN A 198.51.100.2\nzone.tld. 3600 IN NS ns.zone.tld.\n{extra_ds}zone.tld. 3600 IN DS {}\nns.zone.tld. 3600 IN A 198.51.100.3\nunsigned.tld. 3600 IN NS ns.unsigned.tld.\nns.unsigned.tld. 3600 IN A 198.51.100.4\nevil.tld. 3600 IN NS ns.evil.tld.\nevil.tld. 3600 IN DS {}\nns.evil.tld. 3600 IN A 198.51.100.66\nplain.tld. 3600 IN TXT \"in the tld zone\"\nalso.unsigned2.tld. 3600 IN TXT \"below an ent\"\n",
+        ds_text("zone.tld.", &zone_key.1),
+        ds_text("evil.tld.", &evil_key.1)
     );
     let zone_text = "zone.tld. 3600 IN SOA ns.zone.tld. admin.zone.tld. 1 7200 3600 86400 300\n\
 zone.tld. 3600 IN NS ns.zone.tld.\n\
@@ -288,12 +298,39 @@ unsigned.tld. 3600 IN NS ns.unsigned.tld.\n\
 ns.unsigned.tld. 3600 IN A 198.51.100.4\n\
 host.unsigned.tld. 300 IN A 203.0.113.1\n\
 host.unsigned.tld. 300 IN TXT \"insecure\"\n";
-    let zones = vec![
+    let evil_text = "evil.tld. 3600 IN SOA ns.evil.tld. admin.evil.tld. 1 7200 3600 86400 300\n\
+evil.tld. 3600 IN NS ns.evil.tld.\n\
+ns.evil.tld. 3600 IN A 198.51.100.66\n";
+    let mut zones = vec![
         build_zone(".", &root_text, Some(&root_key), Denial::Nsec, inception, expiration),
         build_zone("tld.", &tld_text, Some(&tld_key), tld_denial, inception, expiration),
         build_zone("zone.tld.", zone_text, Some(&zone_key), leaf_denial, inception, expiration),
         build_zone("unsigned.tld.", unsigned_text, None, Denial::Nsec, inception, expiration),
+        build_zone("evil.tld.", evil_text, Some(&evil_key), Denial::Nsec, inception, expiration),
     ];
+    // The DS of zone.tld is signed for a shorter period.
+    {
+        let key = ("zone.tld.".to_string(), Rtype::DS);
+        let rrset = Rrset::new_from_owned(&zones[1].rrsets[&key]).expect("ds rrset");
+        let sig = sign_rrset(&tld_key.0, &rrset, Timestamp::from(inception), Timestamp::from(ds_expiration)).expect("sign ds");
+        let rec: SRec = Record::new(sig.owner().clone(), sig.class(), sig.ttl(), ZoneRecordData::Rrsig(sig.data().clone()));
+        zones[1].sigs.insert(key, vec![rec]);
+    }
+    // What the sibling zone's key can put its name under.
+    let mut foreign_sigs = BTreeMap::new();
+    for z in &zones[1..3] {
+        for ((o, t), recs) in &z.rrsets {
+            if matches!(*t, Rtype::NSEC | Rtype::NSEC3 | Rtype::NSEC3PARAM | Rtype::DNSKEY) {
+                continue;
+            }
+            if let Ok(rrset) = Rrset::new_from_owned(recs) {
+                if let Ok(sig) = sign_rrset(&evil_key.0, &rrset, Timestamp::from(inception), Timestamp::from(expiration)) {
+                    let rec: SRec = Record::new(sig.owner().clone(), sig.class(), sig.ttl(), ZoneRecordData::Rrsig(sig.data().clone()));
+                    foreign_sigs.insert((o.clone(), *t), rec);
+                }
+            }
+        }
+    }
     let b64 = {
         let dk = &root_key.1;
         let rec: Record<SName, Dnskey<Vec<u8>>> = Record::new(sname("."), Class::IN, Ttl::from_secs(3600), dk.clone());
@@ -315,6 +352,8 @@ host.unsigned.tld. 300 IN TXT \"insecure\"\n";
         trust_anchor_text: format!(". 3600 IN DNSKEY {}", b64),
         inception,
         expiration,
+        ds_expiration,
+        foreign_sigs,
     }
 }
 
